@@ -92,6 +92,10 @@ def cases(rng, quick, gr):
     # (5) row-major indexing with computed indices
     for k in range(6):
         yield {"tag": "index", "text": HDR + DECLS + "Op(A[%d], A[%d+0], A[n-3+%d], F[%d]) | A[%d]\n" % (k, k, k, k % 4, k)}
+    # (5a) indexing an array that also holds template parameters: the numeric elements keep their row-major places
+    for k in range(6):
+        yield {"tag": "index-next-to-parameters", "text": HDR + DECLS + "float array PA[2, 3] =\n    1.5, {a}, 3.0\n    4.0, 5.5, {b}\nfloat array PB =\n    {a}, 2, {b}, 4, {a}, 6\n"
+               "Op(PA[0], PA[2], PA[3], PA[4], PA[4] * 2 + PA[3] ** 2, PB[1], PB[3] + PB[5], PB[%d] + 0) | 0\n" % (1 + 2 * (k % 3))}
     # (5b) a variable / array declared again after it has been used: later uses see the NEW value
     for k in range(6):
         yield {"tag": "redeclared", "text": HDR + "int array A =\n    1, 2, 3\nfloat y = A[%d] * 2\nint array A =\n    10, 20, 30, 40, 50\nOp(A[%d], y, A[4] - A[%d]) | A[0] - 10\n" % (k % 3, k % 5, k % 3)}
